@@ -444,6 +444,8 @@ def plan_group(e: dict[str, Any], tab: dict[str, Any], rng: random.Random, thoro
                 g = expect.get("global")
                 if g is not None and g != default and cli(g):
                     eff = cli(g) or []
+                expect = dict(expect)
+                expect.setdefault("lo", lo)
                 nb = {"no_build": True} if (not thorough and "line1" not in kw) else {}
                 if "line1" in kw and not full and g is not None and g != default:
                     notes.append(f"{k}: quick tier, option outside the seeded full-build sample: inline conflicts over a non-default global value not run")
@@ -473,7 +475,7 @@ def plan_group(e: dict[str, Any], tab: dict[str, Any], rng: random.Random, thoro
                      config=toml_file([], [("w", [(k, toml_val(lo))])]), line1={W: il(hi)})
                 addc("inline>ini", {"global": lo, "w": hi, "wlib": lo}, config=ini_file("mypy.ini", [(k, iv(lo))]), line1={W: il(hi)})
                 if c_lo is not None:
-                    addc("all-layers", {"global": lo, "w": hi, "wlib": hi, "lo": hi}, argv=c_lo,
+                    addc("all-layers", {"global": lo, "w": hi, "wlib": hi}, argv=c_lo,
                          config=ini_file("mypy.ini", [(k, iv(hi))], [("w", [(k, iv(lo))]), ("wlib", [(k, iv(hi))])]),
                          line1={W: il(hi)})
     for r in runs + conflicts:
